@@ -7,7 +7,7 @@ ID = "C01"
 MODULES = ["base", "Angle", "Epoch"]
 REQUIRED = ["iint", "Epoch.__init__", "Epoch.set", "Epoch._compute_jde", "Epoch._check_values",
             "Epoch.get_date", "Epoch.get_month", "Epoch.is_leap", "Epoch.is_julian", "Epoch.mjd"]
-THEOREMS = ["C01_construct", "C01_roundtrip", "C01_refused", "C01_consecutive", "C01_month_names", "C01_month_names_lastday", "C01_anchors"]
+THEOREMS = ["C01_construct", "C01_roundtrip", "C01_refused", "C01_consecutive", "C01_month_names", "C01_month_names_lastday", "C01_daycount_bijection", "C01_anchors"]
 PROOF_TIMEOUT = {"quick": 1500, "thorough": 3000}
 EXHAUSTIVE = True
 MANIFEST = {
@@ -26,7 +26,7 @@ CLAUSES = {
     "consecutive dates exactly 1.0 apart incl. 4->15 Oct 1582": "proved [B64 + spec lemma jdn_next, all years]",
     "month names (24 names x 4 spellings, every year, first and last day of the month)": "proved [B64, full domain]",
     "anchors -4712-01-01.5 = 0, MJD 0, J2000": "proved [B64]",
-    "day count is a bijection stepping by 1 for ALL years (no upper bound)": "proved [spec, lia]",
+    "day count is a bijection (injective, onto all day numbers >= 0) stepping by 1 for ALL years (no upper bound)": "proved [spec, lia/induction] C01_daycount_bijection",
 }
 
 def proof_files(tier):
